@@ -16,7 +16,7 @@ def run(chk, repo, tier):
     chk.rule("C09.R1", "suite identifiers equal draft-irtf-cfrg-bls-signature-04 §4.2; hash is SHA-256", 4 + 3)
     chk.rule("C09.R2", "output terms of SkToPk / Sign / PopProve / Aggregate and the two byte encoders equal the draft's", 2 + 3 + 3 + 1 + 3)
     chk.rule("C09.R3", "hash_to_G2 — the one component of the output terms that is itself specified byte for byte (RFC 9380 suite "
-                       "BLS12381G2_XMD:SHA-256_SSWU_RO_) — is as C10 requires: C10's obligations re-stated", 60)
+                       "BLS12381G2_XMD:SHA-256_SSWU_RO_) — is as C10 requires: C10's obligations for the G2 suite re-stated", 40)
     chk.not_decided += ["numerical value of the terms: that compress/multiply compute what they denote (C11, C07)"]
     chk.depends_on += ["C07", "C10", "C11"]
     from . import C10
@@ -27,7 +27,11 @@ def run(chk, repo, tier):
         C10.run(sub, repo, tier)
     except AnalysisError as e:
         err = e
+    g1_only = ("swu_G1", "sqrt_division_FQ.", "ISO_11", "iso_map_G1", "hash_to_G1", "G1 ω", "G1:", "hash_to_field_FQ.", "optimized_bls12_381_FQ.")
     for rule, construct, key, ok, detail, where in sub.obs:
+        tag = f"{construct}.{key}."
+        if any(t in tag for t in g1_only) or construct.endswith("sqrt_division_FQ") or construct.endswith("hash_to_field_FQ"):
+            continue          # the G1 suite is not used by the signature ciphersuites
         chk.ob("C09.R3", construct, f"hash_to_G2 [{rule}] {key}", ok, detail, where)
     if err is not None and all(o[3] for o in sub.obs):
         raise err
